@@ -51,6 +51,8 @@ TrigVerdict(t) ==
   IF ~(hSide.natoms = 3 * rSide.natoms) THEN "REJECT CountRatio" ELSE
   IF ~(hSide.vol2 \div 9 = rSide.vol2 /\ hSide.vol2 % 9 = 0) THEN "REJECT VolumeRatio" ELSE
   IF ~CloseRel(t.start.dens, t.after.dens) THEN "REJECT Density:switch" ELSE
+  \* expanding the switched crystal to P1 lists exactly its unit-cell atoms (also when the object was used before the switch)
+  IF ~(t.after.p1_natoms = t.after.natoms /\ CloseRel(t.after.p1_dens, t.after.dens)) THEN "REJECT P1AfterSwitch" ELSE
   IF t.back.exc # "" THEN "REJECT Raised:back" ELSE
   IF t.back.off THEN "REJECT OnGrid:back" ELSE
   IF NormState(StateOf(t.back)) # NormState(s0) THEN "REJECT RoundTrip" ELSE
